@@ -85,6 +85,21 @@ Bytes ref_encrypt_file(const Bytes &P, const uint8_t key[16], int cmode, int hmo
   memcpy(f.data() + 10, tag.data(), tag.size());
   return f;
 }
+Bytes ref_encrypt_file_iv0(const Bytes &P, const uint8_t key[16], int cmode, int hmode, const uint8_t iv0[20], int T, size_t CH) {
+  Bytes f;
+  for (int i = 0; i < 4; i++) { f.push_back(0xC3); f.push_back(0xA5); }
+  f.push_back((uint8_t)cmode);
+  f.push_back((uint8_t)hmode);
+  f.insert(f.end(), 38, 0);
+  Bytes cur(iv0, iv0 + 20), ivs;
+  for (int i = 0; i < T; i++) { ivs.insert(ivs.end(), cur.begin(), cur.end()); cur = ref_hash(0, cur.data(), 20); }
+  f.insert(f.end(), ivs.begin(), ivs.end());
+  Bytes body = run_streams(ref_pkcs7(P), key, ivs.data(), cmode, T, CH, true);
+  f.insert(f.end(), body.begin(), body.end());
+  Bytes tag = ref_hmac(hmode, key, f.data() + 48, f.size() - 48);
+  memcpy(f.data() + 10, tag.data(), tag.size());
+  return f;
+}
 Bytes ref_decrypt_body(const Bytes &body, const uint8_t key[16], const uint8_t iv16[16], int cmode, int T, size_t CH) {
   return run_streams(body, key, iv16, cmode, T, CH, false);
 }
